@@ -102,6 +102,25 @@ def r3(chk, ctx):
             chk.ob("C03.R3", "dispatch: a catch-all arm exists", catch_all, "", key="EventDispatcher.dispatch | no catch-all arm", where=ed.line(tr), message="")
 
 
+def r3b(chk, ctx):
+    """dispatch's poison arms must be able to run: they may only read names bound before the try"""
+    ed = ctx.mod("event_dispatcher")
+    disp = ed.func("EventDispatcher.dispatch")
+    for tr in [n for n in body_nodes(disp) if isinstance(n, ast.Try)]:
+        bound_in_try = set()
+        for s in tr.body:
+            for x in ast.walk(s):
+                if isinstance(x, ast.Name) and isinstance(x.ctx, ast.Store):
+                    bound_in_try.add(x.id)
+        params = {a.arg for a in disp.node.args.args}
+        for h in tr.handlers:
+            used = {x.id for x in ast.walk(h) if isinstance(x, ast.Name) and isinstance(x.ctx, ast.Load)}
+            bad = sorted((used & bound_in_try) - params - ({h.name} if h.name else set()))
+            chk.ob("C03.R3", "dispatch: except %s uses no name bound only inside the try" % (norm(h.type) if h.type else "bare"), not bad, str(bad),
+                   key="EventDispatcher.dispatch | handler reads %s, which may be unbound when the try failed early" % bad, where=ed.line(h),
+                   message="the handler itself raises (UnboundLocalError) for a message that fails before the binding: the poison message is never acknowledged")
+
+
 def r4(chk, ctx):
     res = ctx.res
     count = 0
@@ -121,7 +140,7 @@ def r4(chk, ctx):
                     ok = isinstance(mk, ast.Constant) and mk.value is False
                     chk.ob("C03.R4", "%s: %s" % (q, short(n, 60)), ok, "", key="%s | %s without multiple=False" % (q, norm(n.func)),
                            where=m.line(n), message="Message.acknowledge defaults to multiple=True, which acknowledges every earlier delivery on the channel")
-    chk.floor("C03.R4", count, 8, "Message.acknowledge call sites")
+    chk.floor("C03.R4", count, 6, "Message.acknowledge call sites (8 on the pinned tree)")
     # the default the rule guards against is still the dangerous one? (informational)
     for name in ("amqp_0_9_1_messaging", "amqp_0_9_1_messaging_asyncio"):
         m = ctx.mod(name)
@@ -256,6 +275,7 @@ def run(chk, ctx):
     proto_findings(chk, p, {"C03.R1", "C03.R1b", "C03.R2", "C18.R4"}, func_filter=lambda r: r["rule"] != "C18.R4" or True)
     chk.floor("C03.R1", len(p.entries), 16, "analysed handler entries")
     r3(chk, ctx)
+    r3b(chk, ctx)
     r4(chk, ctx)
     r5(chk, ctx)
     r6(chk, ctx)
